@@ -259,6 +259,22 @@ def inplace_walk_case(args):
         rule = core.rule_instance(rn)
         nodes = core.inorder(current)
         node = nodes[idx]
+        # the same step as search agents take it — on a copy cloned from the root of the tree AS IT IS
+        # NOW (after the in-place edits so far) — must give what the step gives on a freshly built
+        # tree of the current structure: the context of the rewritten node is the current one
+        if rng.random() < 0.25:
+            try:
+                fresh_root = core.rebuild(current)
+                want = core.strip_tags(core.to_tuple(core.RULES[rn]().apply_to(core.inorder(fresh_root)[idx]).result.get_root()))
+                got = core.strip_tags(core.to_tuple(core.RULES[rn]().apply_to(node.clone_from_root()).result.get_root()))
+                if not core.tuples_agree(got, want, with_tags=False):
+                    for pr_ in ("C07", "C13"):
+                        out["problems"].append({"prop": pr_, "step": step, "rule": rn, "idx": idx, "state": str(current),
+                                                "result_on_clone": core.tuple_str(got), "result_on_fresh_tree": core.tuple_str(want),
+                                                "what": "a rewrite applied to clone_from_root of a tree that was edited in place "
+                                                        "does not keep the current context (the copy is not the current tree)"})
+            except Exception:  # noqa
+                pass
         expected = None
         if forced is not None:
             # what a rule object without history produces on an identical copy
